@@ -424,6 +424,9 @@ cfgLoop:
 	return cfg, nil
 }
 
+// maxStartNr leaves room for segment numbers (uint32) above the start number.
+const maxStartNr = 1_000_000_000
+
 func verifyAndFillConfig(cfg *ResponseConfig, nowMS int) error {
 	if nowMS < 0 {
 		return fmt.Errorf("nowMS must be >= 0")
@@ -445,6 +448,9 @@ func verifyAndFillConfig(cfg *ResponseConfig, nowMS int) error {
 		if tsbd < 0 || tsbd > MAX_TIME_SHIFT_BUFFER_DEPTH_S {
 			return fmt.Errorf("timeShiftBufferDepth %ds is not less than %ds", tsbd, MAX_TIME_SHIFT_BUFFER_DEPTH_S)
 		}
+	}
+	if cfg.StartNr != nil && (*cfg.StartNr < 0 || *cfg.StartNr > maxStartNr) {
+		return fmt.Errorf("start number must be in the range 0-%d", maxStartNr)
 	}
 	if cfg.StopTimeS != nil && *cfg.StopTimeS < cfg.StartTimeS {
 		return fmt.Errorf("stop time %ds is before start time %ds", *cfg.StopTimeS, cfg.StartTimeS)
